@@ -86,4 +86,17 @@ SumW(d, w) == IF d = <<>> THEN 0 ELSE Head(d)*Head(w) + SumW(Tail(d), Tail(w))
 WMean(d, w) == Frac(SumW(d, w), SumSeq(w))
 \* equal weights: Cochran's standard error^2 reduces to s^2 / N
 SE2Equal(d) == RDiv(Variance(d), R(Len(d)))
+\* unequal weights: the squared standard error of the ratio estimator in its translation-invariant form
+\*      N / ((N-1) W^2) * sum_i w_i^2 (x_i - X)^2 ,  X = S/W          (small lists only: 32-bit integers)
+WSE2(d, w) == LET N == Len(d)  W == SumSeq(w)  S == SumW(d, w) IN
+              Frac(N * SumSeq([i \in 1..N |-> w[i] * w[i] * (W * d[i] - S) * (W * d[i] - S)]), (N - 1) * W * W * W * W)
+\* ... and as Weighted_Average computes it (Cochran): N/((N-1) W^2) (sum1 - 2 X sum2 + X^2 sum3)
+WSE2Cochran(d, w) ==
+   LET N == Len(d)  W == SumSeq(w)  X == Frac(SumW(d, w), W)  wb == Frac(W, N)
+       dwx(i) == RSub(R(w[i] * d[i]), RMul(X, wb))
+       dw(i)  == RSub(R(w[i]), wb)
+       s1 == RSum([i \in 1..N |-> RMul(dwx(i), dwx(i))], 1, N)
+       s2 == RSum([i \in 1..N |-> RMul(dw(i), dwx(i))], 1, N)
+       s3 == RSum([i \in 1..N |-> RMul(dw(i), dw(i))], 1, N)
+   IN RMul(Frac(N, (N - 1) * W * W), RAdd(RSub(s1, RMul(R(2), RMul(X, s2))), RMul(RMul(X, X), s3)))
 =============================================================================
